@@ -146,6 +146,7 @@ def run(res: Results, idx: Index, tier: str) -> None:
     rule_h(res, idx)
     rule_j(res, idx)
     rule_k(res, idx, specs)
+    rule_l(res, idx, specs)
     if not getattr(res, "_nested_xref", False):
         # a memo that forgets a parameter ignores that argument on every later call (C14 R-C14g)
         from . import c14
@@ -755,3 +756,65 @@ def rule_k(res: Results, idx: Index, specs) -> None:
                 res.violation("R-C19k", site, key, f"{sp.fq}({p.name}=…) is accepted through **{V} and bound as an equation parameter, but neither the substitute nor {sp.cls.name}.lower() reads `{p.name}`: "
                               "the export computes the default behaviour whatever value the caller passes", sp.cls.name)
     res.analysed["keywords_through_kwargs"] = n
+
+
+# ---------------------------------------------------------------------------------------------- R-C19l
+def rule_l(res: Results, idx: Index, specs) -> None:
+    """Where both the library callable and its substitute give a parameter a default, a call that omits the argument has to
+    mean the same in both.  Compared are literal defaults of the substitute with the library's: equal; or both "off" values of
+    a flag (None / False); or the substitute rejects every value but its default (`if p is not <default>: raise`).  A library
+    default that is a private sentinel object means "argument not given" and makes an explicit None a VALUE (eqx LayerNorm
+    returns `(out, state)` for `state=None`): the substitute may not use None for it."""
+    res.rule("R-C19l", "defaults of a substitute mean what the library's defaults mean (omitted arguments are read alike)", floor=150)
+    seen: Set[int] = set()
+    n = 0
+    for sp in specs:
+        w = sp.wrapper
+        if w is None or isinstance(w, ast.Lambda) or id(w) in seen or sp.target is None or sp.attr is None:
+            continue
+        seen.add(id(w))
+        orig, err = library_object(sp.target, sp.attr)
+        if orig is None:
+            continue
+        try:
+            sig = inspect.signature(orig)
+        except (TypeError, ValueError):
+            continue
+        a = w.args
+        pos = a.posonlyargs + a.args
+        defs = dict(zip([p_.arg for p_ in pos][len(pos) - len(a.defaults):], a.defaults))
+        defs.update({p_.arg: d for p_, d in zip(a.kwonlyargs, a.kw_defaults) if d is not None})
+        for name, p_ in sig.parameters.items():
+            if p_.default is inspect._empty or name not in defs:
+                continue
+            n += 1
+            key = f"{sp.fq}::{name}::default"
+            site = f"{sp.module.rel}:{w.lineno}"
+            cls_name = sp.cls.name if sp.cls else "?"
+            d = defs[name]
+            try:
+                dv = ast.literal_eval(d)
+                literal = True
+            except Exception:
+                dv, literal = None, False
+            od = p_.default
+            simple = isinstance(od, (type(None), bool, int, float, str, tuple))
+            # does the substitute refuse every value but its default?
+            rejects = any(isinstance(t, ast.If) and any(isinstance(x, ast.Raise) for x in ast.walk(t)) and any(isinstance(c, ast.Compare) and isinstance(c.left, ast.Name) and c.left.id == name
+                          and isinstance(c.ops[0], (ast.IsNot, ast.NotEq)) for c in ast.walk(t.test)) for t in ast.walk(w))
+            if not literal:
+                res.unresolved("R-C19l", site, key, f"substitute default `{src(d, 30)}` is an expression (library: {od!r})", cls_name) if simple and od is None else res.ok("R-C19l", site, key, f"non-literal default `{src(d, 30)}`", cls_name)
+            elif simple and (dv == od and type(dv) is type(od)):
+                res.ok("R-C19l", site, key, f"default {od!r} in both", cls_name)
+            elif simple and not dv and not od and isinstance(dv, (type(None), bool)) and isinstance(od, (type(None), bool)):
+                res.ok("R-C19l", site, key, f"{od!r} / {dv!r}: both switch the option off", cls_name)
+            elif rejects:
+                res.ok("R-C19l", site, key, f"library default {od!r}, substitute default {dv!r}; the substitute rejects every other value", cls_name)
+            elif not simple and type(od) is object and dv is None:
+                res.violation("R-C19l", site, key, f"{sp.fq}: the library's default for `{name}` is a private sentinel (argument not given), so an explicit `{name}=None` is a value; the substitute's default is None "
+                              "and it cannot tell the two apart (eqx.nn.LayerNorm()(x, None) returns (out, None) in the library, the bare array while traced)", cls_name)
+            elif not simple:
+                res.ok("R-C19l", site, key, f"library default {od!r} is not a plain constant (enum / object); substitute default {dv!r}", cls_name)
+            else:
+                res.violation("R-C19l", site, key, f"{sp.fq}: omitting `{name}` means {od!r} in the library and {dv!r} in the substitute", cls_name)
+    res.analysed["defaults_compared"] = n
